@@ -211,11 +211,15 @@ enum skipper_kind
   SK_LIT_SPACE,   // literal(' '): exactly one
   SK_REP_LIT,     // *literal(' ')
   SK_SEQ_LIT_LIT, // literal(' ') >> literal(' ')
+  SK_REP_SEQ,     // *(literal(' ') >> literal(' ')): whole pairs only, a trailing single blank is left (rewound)
+  SK_SEQ_CS_LIT,  // char_set{' '} >> literal(' '): the char_set takes exactly one character
+  SK_REP_CS,      // *char_set{' '}
   SK_END
 };
 inline char const *skipper_name(int s)
 {
-  static char const *n[] = {"epsilon", "space", "char_set{' '}", "literal(' ')", "*literal(' ')", "literal(' ')>>literal(' ')"};
+  static char const *n[] = {"epsilon", "space", "char_set{' '}", "literal(' ')", "*literal(' ')", "literal(' ')>>literal(' ')",
+                            "*(literal(' ')>>literal(' '))", "char_set{' '}>>literal(' ')", "*char_set{' '}"};
   return n[s];
 }
 
@@ -246,9 +250,15 @@ struct reference
     case SK_CS_SPACE:
     case SK_LIT_SPACE: return one(i);
     case SK_REP_LIT:
+    case SK_REP_CS:
       while (i < s.size() && s[i] == ' ')
         ++i;
       return i;
+    case SK_REP_SEQ:
+      while (i + 1 < s.size() && s[i] == ' ' && s[i + 1] == ' ')
+        i += 2;
+      return i;
+    case SK_SEQ_CS_LIT:
     case SK_SEQ_LIT_LIT:
     {
       std::size_t p = one(i);
@@ -558,6 +568,24 @@ template <class Ch> dyn_skipper<Ch> make_skipper(int sk)
   case SK_SEQ_LIT_LIT:
   {
     auto v = sp::basic_literal<Ch>{space} >> sp::basic_literal<Ch>{space};
+    auto s = std::make_shared<decltype(v)>(std::move(v));
+    return dyn_skipper<Ch>{[s](auto st) { return s->skip(st); }};
+  }
+  case SK_REP_SEQ:
+  {
+    auto v = *(sp::basic_literal<Ch>{space} >> sp::basic_literal<Ch>{space});
+    auto s = std::make_shared<decltype(v)>(std::move(v));
+    return dyn_skipper<Ch>{[s](auto st) { return s->skip(st); }};
+  }
+  case SK_SEQ_CS_LIT:
+  {
+    auto v = sp::basic_char_set<Ch>{space} >> sp::basic_literal<Ch>{space};
+    auto s = std::make_shared<decltype(v)>(std::move(v));
+    return dyn_skipper<Ch>{[s](auto st) { return s->skip(st); }};
+  }
+  case SK_REP_CS:
+  {
+    auto v = *sp::basic_char_set<Ch>{space};
     auto s = std::make_shared<decltype(v)>(std::move(v));
     return dyn_skipper<Ch>{[s](auto st) { return s->skip(st); }};
   }
